@@ -51,4 +51,56 @@ theorem C09_miss_means_absent (ops : List Op) (hv : ValidRun' {} ops) (s : Strin
   have := List.find?_eq_none.mp hmiss _ this
   simp at this
 
+/-- **C09_created_has_content.**  Whatever creation path asked for the text `s` (literal, `+`,
+interpolation, slicing, splitting, number formatting, another module: each ends in `manage_str`), and
+whatever happened before — including an equal string created, dropped and collected, and a collection
+triggered by this very allocation (`hit`, or the byte threshold) — the object handed back has exactly
+the content `s`, is reachable, and is the *only* reachable string object with that content. -/
+theorem C09_created_has_content (ops : List Op) (hv : ValidRun' {} ops) (s : String) (size : Nat) (hit : Bool) :
+    ∃ x, (step (run {} ops) (.str s size hit)).fresh = some x ∧
+      strOf (step (run {} ops) (.str s size hit)).a x = some s ∧
+      (step (run {} ops) (.str s size hit)).reachable x ∧
+      ∀ y, (step (run {} ops) (.str s size hit)).reachable y →
+        strOf (step (run {} ops) (.str s size hit)).a y = some s → y = x := by
+  have hm := run_inv {} ops init_inv hv
+  have hm' := step_inv (run {} ops) (.str s size hit) hm trivial trivial
+  generalize run {} ops = m at hm hm'
+  have hcontent : strOf (step m (.str s size hit)).a (m.a.manageStr s size m.roots hit).2.1 = some s := by
+    simp only [step, A.manageStr]
+    split
+    · rename_i p hp
+      have hmem := List.mem_of_find?_eq_some hp
+      have hkey : p.1 = s := by simpa using List.find?_some hp
+      rw [← hkey]; exact hm.2.tableStr p hmem
+    · exact alloc_strOf_new m.a { size := size, edges := [], str := some s } m.roots hit
+  have hreach : (step m (.str s size hit)).reachable (m.a.manageStr s size m.roots hit).2.1 :=
+    Reach.root (by simp [step, M.roots])
+  exact ⟨_, rfl, hcontent, hreach, fun y hy cy => sinv_canonical hm'.2 hy hreach cy hcontent⟩
+
+/-- **C09_create_again_same_object.**  While a string with content `s` is still reachable, creating
+`s` again by any path hands back that very object and leaves the allocator unchanged: identity
+equality and identity hashing therefore find the existing map entry / method / field. -/
+theorem C09_create_again_same_object (ops : List Op) (hv : ValidRun' {} ops) (s : String) (size : Nat)
+    (hit : Bool) (x : Nat) (hx : (run {} ops).reachable x) (cx : strOf (run {} ops).a x = some s) :
+    (step (run {} ops) (.str s size hit)).fresh = some x ∧
+      (step (run {} ops) (.str s size hit)).a = (run {} ops).a := by
+  have hm := run_inv {} ops init_inv hv
+  generalize run {} ops = m at hm hx cx
+  have hmem := hm.2.liveInTable x s hx cx
+  simp only [step, A.manageStr]
+  split
+  · rename_i p hp
+    have hpm := List.mem_of_find?_eq_some hp
+    have hkey : p.1 = s := by simpa using List.find?_some hp
+    have : p = (s, p.2) := by rw [← hkey]
+    rw [this] at hpm
+    exact ⟨by rw [nodup_keys_unique hm.2.keysNodup hpm hmem], rfl⟩
+  · rename_i hnone
+    have := List.find?_eq_none.mp hnone _ hmem
+    simp at this
+
+/-- Non-vacuity: the sample history of `Props/C05.lean` keeps an interned string alive. -/
+example : ∃ x s, (run {} sampleOps).reachable x ∧ strOf (run {} sampleOps).a x = some s := by
+  exact ⟨0, "a", Reach.root (by decide), by decide⟩
+
 end LaytheVerif.C09
